@@ -112,11 +112,29 @@ def tla_value(v):
     raise MachineryError("cannot render %r in a cfg" % (v,))
 
 
-def run_tlc(module, cfg, workers=16, env=None, simulate=None, depth=None, coverage=False,
+NO_COVERAGE = {"Levenshtein", "LevenshteinMC"}
+
+
+def run_tlc(module, cfg, workers=16, env=None, simulate=None, depth=None, coverage=None,
             timeout=600, seed=None, extra=(), heap="4g", dfs_queue=False, name=None):
     """Run TLC on spec/<module>.tla with the given cfg text (or path). Returns TLCResult.
 
     Raises MachineryError when TLC itself failed (parse error, evaluation error, crash, timeout)."""
+    if coverage is None:
+        # per-action coverage for model-checking runs (not for generators, simulations and trace batches): the evidence
+        # lists how often every action was taken, so that a property checked on a never-taken action shows as vacuous.
+        # Coverage bookkeeping is expensive for specifications built from deeply recursive operators (it exhausted the
+        # heap on Levenshtein.tla): if the run with coverage fails, it is repeated once without.
+        base = os.path.basename(module)
+        auto = simulate is None and not base.endswith(("Gen", "Trace", "TraceMC")) and "TRACE_FILE" not in (env or {}) \
+            and base not in NO_COVERAGE
+        if auto:
+            try:
+                return run_tlc(module, cfg, workers=workers, env=env, simulate=simulate, depth=depth, coverage=True,
+                               timeout=timeout, seed=seed, extra=extra, heap=heap, dfs_queue=dfs_queue, name=name)
+            except MachineryError:
+                pass
+        coverage = False
     _counter[0] += 1
     tag = "%s-%d" % (name or module, _counter[0])
     work = os.path.join(scratch(), tag)
